@@ -18,6 +18,9 @@ rules                             names of the translated rules in evaluation or
 hreset                            forget all cached `rotation` values (new objects)                                -> ok
 hsolve <extra> <cls> <slot> …     solve the arrangement `extra + 1` outer iterations with the caches left by the earlier
                                   `hsolve`s -> final observations `;`-separated ` | ` cache of every pass (t|f|-)
+heap <node> <node> …              the object graph: node = <id>:<P|R|T|O>:<is a sequence 0|1>:<parent id|->:<subunit ids a.b.c|->  -> ok
+nav <id>                          detect_already_rotated(unit id) as a navigation over that graph -> t | f | none | E:value | E:index
+flat <id>                         sequence id .flatten() on that graph (kept)  -> members ` | ` parent of every node (in `heap` order)
 ```
 slots of `hsolve`: `P#<id>:<setting>:<cls>[:<pres>]` (`pres` = pre-processor factories of the pass' class in yield order,
 `F` rotator_factory, `i` geometry-neutral unit returning a new profile, `n` returns None; default `F`), other units as above.
@@ -92,6 +95,53 @@ def showCache (store : Store) (us : List (Slot Float)) : String :=
 structure DState where
   auto : Bool
   store : Store
+  nodes : List NodeRec := []
+
+def kind? (s : String) : Option Kind :=
+  if s = "P" then some .pass else if s = "R" then some .rotator else if s = "T" then some .transport
+  else if s = "O" then some .other else none
+
+def ids? (s : String) : Option (List Nat) := if s = "-" then some [] else (s.splitOn ".").mapM (·.toNat?)
+
+def node? (tok : String) : Option NodeRec :=
+  match tok.splitOn ":" with
+  | [i, k, q, p, subs] => do
+    let i ← i.toNat?
+    let k ← kind? k
+    let p ← if p = "-" then some none else p.toNat?.map some
+    let subs ← ids? subs
+    pure { id := i, kind := k, isSeq := q = "1", parent := p, subs := subs }
+  | _ => none
+
+def showIds (l : List Nat) : String := if l.isEmpty then "-" else ".".intercalate (l.map toString)
+
+def showNav : NavOut → String
+  | .val (some true) => "t"
+  | .val (some false) => "f"
+  | .val none => "none"
+  | .raises .value => "E:value"
+  | .raises .index => "E:index"
+  | .fuel => "fuel"
+
+def handleNav (d : DState) (line : String) : Option (DState × String) :=
+  match toks line with
+  | "heap" :: ns =>
+    match ns.mapM node? with
+    | some ns => some ({ d with nodes := ns }, "ok")
+    | none => some (d, "bad-op")
+  | ["nav", i] =>
+    match i.toNat? with
+    | some i => some (d, showNav (detectNav T.walk Gen.C14.prevSpec d.auto (Heap.ofNodes d.nodes) i d.nodes.length))
+    | none => some (d, "bad-op")
+  | ["flat", i] =>
+    match i.toNat? with
+    | some i =>
+      let h := flatten Gen.C14.listOps Gen.C14.flattenSpec (Heap.ofNodes d.nodes) i
+      let ns := d.nodes.map fun n => { n with parent := h.parent n.id, subs := h.subs n.id }
+      some ({ d with nodes := ns }, showIds (h.subs i) ++ " | " ++
+        " ".intercalate (ns.map fun n => match n.parent with | some p => toString p | none => "-"))
+    | none => some (d, "bad-op")
+  | _ => none
 
 def handleH (d : DState) (line : String) : Option (DState × String) :=
   match toks line with
@@ -136,7 +186,7 @@ partial def loop (h : IO.FS.Stream) (d : DState) : IO Unit := do
   let line ← h.getLine
   if line.isEmpty then return ()
   let l := line.trimAscii.toString
-  match handleH d l with
+  match (handleH d l).orElse (fun _ => handleNav d l) with
   | some (d', out) =>
     IO.println out
     loop h d'
